@@ -315,6 +315,14 @@ func (s *SCCP) eval1(v ssa.Value) AVal {
 		for _, arg := range x.Call.Args {
 			args = append(args, s.Eval(arg))
 		}
+		if bi, ok := x.Call.Value.(*ssa.Builtin); ok && bi.Name() == "len" && len(args) == 1 {
+			if args[0].K == AString {
+				return AVal{K: AInt, I: int64(len(args[0].S))}
+			}
+			if args[0].K == ANil {
+				return AVal{K: AInt, I: 0}
+			}
+		}
 		if f := x.Call.StaticCallee(); f != nil {
 			switch f.String() {
 			case "strings.ToLower":
